@@ -189,10 +189,21 @@ func (c *caCtx) doRetry() bool {
 	good := quic.VerifRetryTag(body, c.p.O, quic.Version(ver)) // the only tag the original DCID authorises
 	tag := append([]byte{}, good...)
 	kind := "good"
-	switch c.r.Intn(10) {
-	case 0, 1:
+	switch c.r.Intn(12) {
+	case 0:
 		kind = "flip"
 		tag[c.r.Intn(16)] ^= 1 << uint(c.r.Intn(8))
+	case 1:
+		kind = "flip-last"
+		tag[15] ^= 1 << uint(c.r.Intn(8))
+	case 10:
+		kind = "flip-first"
+		tag[0] ^= 1 << uint(c.r.Intn(8))
+	case 11:
+		kind = "flip-body" // tag of a body that differs in one token bit
+		b2 := append([]byte{}, body...)
+		b2[len(b2)-1] ^= 1
+		tag = quic.VerifRetryTag(b2, c.p.O, quic.Version(ver))
 	case 2:
 		kind = "zero"
 		tag = make([]byte, 16)
@@ -680,7 +691,7 @@ func runOneTimer(w *bufio.Writer, tc caTimerCase, r *u.Rng) {
 		term = u.App("CaseTimer", u.Z(rel(t.Creation)), u.Z(rel(t.LastRcv)), u.Z(rel(t.FirstAckElicitingAfterIdle)), u.Z(int64(tc.hsIdle)), u.Z(int64(tc.keepAlive)),
 			u.B(t.KeepAlivePingSent), u.Z(t.KeepAliveInterval), u.Z(closeAt), kind)
 	}
-	if err := inBubbleWatchdog(body, 60*time.Second); err != nil {
+	if err := inBubbleWatchdog(body, 30*time.Second); err != nil {
 		fails = append(fails, monFail{"connaccept/deadline-leak-or-panic", err.Error()})
 	}
 	if term != "" {
